@@ -7,6 +7,9 @@ props = [json.loads(l) for l in open(os.path.join(ROOT, "properties.jsonl"))]
 E = "exploration"
 # id -> (category, technique, what the level gives, trusted base / assumptions)
 CHECKS = {
+ "C09": (E, "proptest with rule-targeted mutation operators, differential against a reference validator written from spec section 5",
+   "Valid documents (typed generator) and invalid variants from 27 rule-targeted operators on random dynamic schemas and a derive-built schema; the reference validator (31 rules + variable coercion) decides validity and names the rule; invalid => errors with locations and no resolver ran, valid => the validation hook passes; every rule class has a floor in the evidence histogram.",
+   "Trusts the reference validator (vgql::refvalidate). Each open finding is a quirk switch of that validator: a deviation is attributed only if the quirks predict exactly the observed verdict. Uploads, integral floats for Int, RFC-only oneOf variable rules are outside the domain."),
  "C18": (E, "proptest + enumerated visibility contexts: introspection response rebuilt into a client schema and compared with the source schema, the SDL and execution",
    "The standard introspection query runs on generated dynamic schemas, static Z and a visibility schema W with 15 request-data capabilities (corner contexts enumerated, random contexts beyond; all 2^15 in the thorough tier); the rebuilt client schema must be self-consistent, equal the expectation restricted to the visible elements, equal the SDL read-back, documents generated from it must execute, and no sentinel of a hidden element may occur.",
    "Expectation tables for Z and W are hand-written SDL. Only coherent visibility configurations; unreferenced types are outside the domain; selecting hidden fields is documented as allowed."),
